@@ -117,7 +117,9 @@ func c19Shapes() []c19Shape {
 	return []c19Shape{
 		{"top", func(e ev.E) []ev.E { return doc(e) }, func(t interface{}) interface{} { return t }, func(v reflect.Value) reflect.Value { return v }},
 		{"slice-element", func(e ev.E) []ev.E { return doc(ev.EList(), e, ev.EEnd()) },
-			func(t interface{}) interface{} { return reflect.MakeSlice(reflect.SliceOf(reflect.TypeOf(t)), 0, 0).Interface() },
+			func(t interface{}) interface{} {
+				return reflect.MakeSlice(reflect.SliceOf(reflect.TypeOf(t)), 0, 0).Interface()
+			},
 			func(v reflect.Value) reflect.Value {
 				v = deref(v)
 				if !v.IsValid() || v.Kind() != reflect.Slice || v.Len() != 1 {
@@ -138,7 +140,9 @@ func c19Shapes() []c19Shape {
 				return v.Field(0)
 			}},
 		{"map-value", func(e ev.E) []ev.E { return doc(ev.EMap(), ev.EStr("n"), e, ev.EEnd()) },
-			func(t interface{}) interface{} { return reflect.MakeMap(reflect.MapOf(reflect.TypeOf(""), reflect.TypeOf(t))).Interface() },
+			func(t interface{}) interface{} {
+				return reflect.MakeMap(reflect.MapOf(reflect.TypeOf(""), reflect.TypeOf(t))).Interface()
+			},
 			func(v reflect.Value) reflect.Value {
 				v = deref(v)
 				if !v.IsValid() || v.Kind() != reflect.Map {
